@@ -23,7 +23,7 @@ Section Foot.
   Variable W : Type.
   Variable p : rwp.
   Variable typeof : bool -> sval -> nat.
-  Variable tbl : list kpart -> option sval.
+  Variable tbl : nat -> list kpart -> option sval.
   Variable callv : sval -> list sval -> list (nat * sval) -> W -> outcome sval * W * list event.
   Variable binop : nat -> sval -> sval -> outcome sval.
   Variable getattr : sval -> nat -> outcome sval.
@@ -199,8 +199,8 @@ Section Foot.
     intros. unfold call_user in H. destruct (callv c (map shape ar) (shape_kw kw) (s_world W s)) as [[o w] evs].
     injection H as <- <-. simpl. auto.
   Qed.
-  Lemma dispatch_frozen : forall pre slf ar kw s r s1,
-    dispatch W p typeof tbl callv pre slf ar kw s = (r, s1) -> frames s1 = frames s /\ gvars s1 = gvars s.
+  Lemma dispatch_frozen : forall nid pre slf ar kw s r s1,
+    dispatch W p typeof tbl callv nid pre slf ar kw s = (r, s1) -> frames s1 = frames s /\ gvars s1 = gvars s.
   Proof.
     intros. unfold dispatch in H. destruct (entry_bind p ar kw) as [[a k]|]; [|injection H as <- <-; auto].
     destruct (tbl _); [|injection H as <- <-; auto]. eapply call_user_frozen; eauto.
